@@ -194,9 +194,17 @@ func (e *Error) getIndicator(line string) string {
 		uw-- // Decrement for place for '^'
 	}
 
-	// Count width of spaces before '^'
-	sw := runewidth.StringWidth(line[:start])
-	return fmt.Sprintf("%s^%s", strings.Repeat(" ", sw), strings.Repeat("~", uw))
+	// Put white spaces before '^' for the width of the characters. Tab characters are kept as-is so that '^' is put under
+	// the error position regardless of the tab width
+	var pad strings.Builder
+	for _, c := range line[:start] {
+		if c == '\t' {
+			pad.WriteByte('\t')
+		} else {
+			pad.WriteString(strings.Repeat(" ", runewidth.RuneWidth(c)))
+		}
+	}
+	return fmt.Sprintf("%s^%s", pad.String(), strings.Repeat("~", uw))
 }
 
 var lineBreaksReplacer = strings.NewReplacer("\r\n", " ", "\n", " ", "\r", " ", "\u0085", " ", "\u2028", " ", "\u2029", " ", "\x1b", " ")
